@@ -4088,6 +4088,15 @@ let rec count_true_prefix l = function
    | [] -> O
    | b :: l' -> add (if b then S O else O) (count_true_prefix l' n'))
 
+(** val gl_known_type : char list -> bool **)
+
+let gl_known_type ty =
+  (||)
+    ((||)
+      ((||) (eqb0 ty ('F'::('E'::('A'::('T'::('U'::('R'::('E'::[]))))))))
+        (eqb0 ty ('X'::('O'::('R'::[]))))) (eqb0 ty ('O'::('R'::[]))))
+    (eqb0 ty ('G'::('E'::('N'::('O'::('R'::[]))))))
+
 (** val glencoe_parse_tree :
     nat -> aval -> path -> ptr -> aval -> pfeature result **)
 
@@ -4110,127 +4119,143 @@ let rec glencoe_parse_tree fuel finfo_ here parent node0 =
                      eqb0 fty
                        ('F'::('E'::('A'::('T'::('U'::('R'::('E'::[])))))))
                    in
-                   if jhas
-                        ('c'::('h'::('i'::('l'::('d'::('r'::('e'::('n'::[]))))))))
-                        node0
-                   then (match jget
-                                 ('c'::('h'::('i'::('l'::('d'::('r'::('e'::('n'::[]))))))))
-                                 node0 with
-                         | Ok chv ->
-                           (match jlist chv with
-                            | Ok chl ->
-                              let flags =
-                                map (fun c ->
-                                  match jget ('i'::('d'::[])) c with
-                                  | Ok cid ->
-                                    (match finfo_get finfo_ cid
-                                             ('o'::('p'::('t'::('i'::('o'::('n'::('a'::('l'::[])))))))) with
-                                     | Ok ov ->
-                                       (match jbool ov with
-                                        | Ok b -> Some b
-                                        | Err _ -> None)
-                                     | Err _ -> None)
-                                  | Err _ -> None) chl
-                              in
-                              let mand =
-                                map (fun o ->
-                                  match o with
-                                  | Some y -> if y then false else true
-                                  | None -> false) flags
-                              in
-                              let n_mand = length (filter (fun b -> b) mand)
-                              in
-                              let where_ = fun p ->
-                                if is_plain
-                                then (p, O)
-                                else if nth p mand false
-                                     then ((count_true_prefix mand p), O)
-                                     else (n_mand,
-                                            (sub p (count_true_prefix mand p)))
-                              in
-                              (match let rec goc p = function
-                                     | [] -> Ok []
-                                     | c :: cs ->
-                                       (match glencoe_parse_tree fuel' finfo_
-                                                (app here ((where_ p) :: []))
-                                                (PPath here) c with
-                                        | Ok pc ->
-                                          (match jget ('i'::('d'::[])) c with
-                                           | Ok cid ->
-                                             (match finfo_get finfo_ cid
-                                                      ('o'::('p'::('t'::('i'::('o'::('n'::('a'::('l'::[])))))))) with
-                                              | Ok ov ->
-                                                (match jbool ov with
-                                                 | Ok opt ->
-                                                   (match goc (S p) cs with
-                                                    | Ok rest ->
-                                                      Ok ((pc, opt) :: rest)
-                                                    | Err e -> Err e)
-                                                 | Err e -> Err e)
-                                              | Err e -> Err e)
-                                           | Err e -> Err e)
-                                        | Err e -> Err e)
-                                     in goc O chl with
-                               | Ok kids ->
-                                 if is_plain
-                                 then Ok (PFeature (info0, parent, [],
-                                        (map (fun ko -> PRelation ((PPath
-                                          here),
-                                          (if snd ko then Z0 else Zpos XH),
-                                          (Zpos XH), ((fst ko) :: []))) kids)))
-                                 else let singles =
-                                        map (fun ko -> PRelation ((PPath
-                                          here), (Zpos XH), (Zpos XH),
-                                          ((fst ko) :: [])))
-                                          (filter (fun ko -> negb (snd ko))
-                                            kids)
-                                      in
-                                      let group = map fst (filter snd kids) in
-                                      let grp =
-                                        if eqb0 fty ('X'::('O'::('R'::[])))
-                                        then Ok ((Zpos XH), (Zpos XH))
-                                        else if eqb0 fty ('O'::('R'::[]))
-                                             then Ok ((Zpos XH),
-                                                    (Z.of_nat (length group)))
-                                             else if eqb0 fty
-                                                       ('G'::('E'::('N'::('O'::('R'::[])))))
-                                                  then (match finfo_get
-                                                                finfo_ fid
-                                                                ('m'::('i'::('n'::[]))) with
-                                                        | Ok a ->
-                                                          (match finfo_get
+                   if negb (gl_known_type fty)
+                   then Err FlamaException
+                   else if jhas
+                             ('c'::('h'::('i'::('l'::('d'::('r'::('e'::('n'::[]))))))))
+                             node0
+                        then (match jget
+                                      ('c'::('h'::('i'::('l'::('d'::('r'::('e'::('n'::[]))))))))
+                                      node0 with
+                              | Ok chv ->
+                                (match jlist chv with
+                                 | Ok chl ->
+                                   let flags =
+                                     map (fun c ->
+                                       match jget ('i'::('d'::[])) c with
+                                       | Ok cid ->
+                                         (match finfo_get finfo_ cid
+                                                  ('o'::('p'::('t'::('i'::('o'::('n'::('a'::('l'::[])))))))) with
+                                          | Ok ov ->
+                                            (match jbool ov with
+                                             | Ok b -> Some b
+                                             | Err _ -> None)
+                                          | Err _ -> None)
+                                       | Err _ -> None) chl
+                                   in
+                                   let mand =
+                                     map (fun o ->
+                                       match o with
+                                       | Some y -> if y then false else true
+                                       | None -> false) flags
+                                   in
+                                   let n_mand =
+                                     length (filter (fun b -> b) mand)
+                                   in
+                                   let where_ = fun p ->
+                                     if is_plain
+                                     then (p, O)
+                                     else if nth p mand false
+                                          then ((count_true_prefix mand p), O)
+                                          else (n_mand,
+                                                 (sub p
+                                                   (count_true_prefix mand p)))
+                                   in
+                                   (match let rec goc p = function
+                                          | [] -> Ok []
+                                          | c :: cs ->
+                                            (match glencoe_parse_tree fuel'
+                                                     finfo_
+                                                     (app here
+                                                       ((where_ p) :: []))
+                                                     (PPath here) c with
+                                             | Ok pc ->
+                                               (match jget ('i'::('d'::[])) c with
+                                                | Ok cid ->
+                                                  (match finfo_get finfo_ cid
+                                                           ('o'::('p'::('t'::('i'::('o'::('n'::('a'::('l'::[])))))))) with
+                                                   | Ok ov ->
+                                                     (match jbool ov with
+                                                      | Ok opt ->
+                                                        (match goc (S p) cs with
+                                                         | Ok rest ->
+                                                           Ok ((pc,
+                                                             opt) :: rest)
+                                                         | Err e -> Err e)
+                                                      | Err e -> Err e)
+                                                   | Err e -> Err e)
+                                                | Err e -> Err e)
+                                             | Err e -> Err e)
+                                          in goc O chl with
+                                    | Ok kids ->
+                                      if is_plain
+                                      then Ok (PFeature (info0, parent, [],
+                                             (map (fun ko -> PRelation
+                                               ((PPath here),
+                                               (if snd ko then Z0 else Zpos XH),
+                                               (Zpos XH), ((fst ko) :: [])))
+                                               kids)))
+                                      else let singles =
+                                             map (fun ko -> PRelation ((PPath
+                                               here), (Zpos XH), (Zpos XH),
+                                               ((fst ko) :: [])))
+                                               (filter (fun ko ->
+                                                 negb (snd ko)) kids)
+                                           in
+                                           let group =
+                                             map fst (filter snd kids)
+                                           in
+                                           (match group with
+                                            | [] ->
+                                              Ok (PFeature (info0, parent,
+                                                [], singles))
+                                            | _ :: _ ->
+                                              let grp =
+                                                if eqb0 fty
+                                                     ('X'::('O'::('R'::[])))
+                                                then Ok ((Zpos XH), (Zpos XH))
+                                                else if eqb0 fty
+                                                          ('O'::('R'::[]))
+                                                     then Ok ((Zpos XH),
+                                                            (Z.of_nat
+                                                              (length group)))
+                                                     else (match finfo_get
                                                                    finfo_ fid
-                                                                   ('m'::('a'::('x'::[]))) with
-                                                           | Ok b ->
-                                                             (match jint a with
-                                                              | Ok a' ->
+                                                                   ('m'::('i'::('n'::[]))) with
+                                                           | Ok a ->
+                                                             (match finfo_get
+                                                                    finfo_
+                                                                    fid
+                                                                    ('m'::('a'::('x'::[]))) with
+                                                              | Ok b ->
                                                                 (match 
-                                                                 jint b with
-                                                                 | Ok b' ->
-                                                                   Ok (a', b')
+                                                                 jint a with
+                                                                 | Ok a' ->
+                                                                   (match 
+                                                                    jint b with
+                                                                    | Ok b' ->
+                                                                    Ok (a',
+                                                                    b')
+                                                                    | Err e ->
+                                                                    Err e)
                                                                  | Err e ->
                                                                    Err e)
                                                               | Err e -> Err e)
                                                            | Err e -> Err e)
-                                                        | Err e -> Err e)
-                                                  else (match singles with
-                                                        | [] ->
-                                                          Err
-                                                            UnboundLocalError
-                                                        | _ :: _ ->
-                                                          Err OtherExn)
-                                      in
-                                      (match grp with
-                                       | Ok a0 ->
-                                         let (a, b) = a0 in
-                                         Ok (PFeature (info0, parent, [],
-                                         (app singles ((PRelation ((PPath
-                                           here), a, b, group)) :: []))))
-                                       | Err e -> Err e)
-                               | Err e -> Err e)
-                            | Err e -> Err e)
-                         | Err e -> Err e)
-                   else Ok (PFeature (info0, parent, [], []))
+                                              in
+                                              (match grp with
+                                               | Ok a0 ->
+                                                 let (a, b) = a0 in
+                                                 Ok (PFeature (info0, parent,
+                                                 [],
+                                                 (app singles ((PRelation
+                                                   ((PPath here), a, b,
+                                                   group)) :: []))))
+                                               | Err e -> Err e))
+                                    | Err e -> Err e)
+                                 | Err e -> Err e)
+                              | Err e -> Err e)
+                        else Ok (PFeature (info0, parent, [], []))
                  | Err e -> Err e)
               | Err e -> Err e)
            | Err e -> Err e)
